@@ -22,3 +22,33 @@ mod verif_kani
         }
     }
 }
+
+#[cfg(kani)]
+mod verif_kani_more
+{
+    use super::*;
+
+    /// Cross-check of [C08.fail]/[C05.count] on the unrewritten code (bounded: two per-file results).
+    #[kani::proof]
+    #[kani::unwind(4)]
+    fn verif_insert_reduce()
+    {
+        let a = InsertReferencesResult { failure: kani::any(), num_inserted_references: kani::any::<u16>() as usize };
+        let b = InsertReferencesResult { failure: kani::any(), num_inserted_references: kani::any::<u16>() as usize };
+        let (fa, fb, na, nb) = (a.failure, b.failure, a.num_inserted_references, b.num_inserted_references);
+        let r = <InsertReferencesProcessor as ReferenceProcessor<Arc<AtomicU32>, InsertReferencesResult, InsertReferencesResult>>::reduce(&[a, b]).unwrap();
+        assert!(r.failure == (fa || fb));
+        assert!(r.num_inserted_references == na + nb);
+    }
+
+    /// Cross-check of [C05.verdict] (reduce of the count pass), bounded: two per-file counts.
+    #[kani::proof]
+    #[kani::unwind(4)]
+    fn verif_count_reduce()
+    {
+        let a: u32 = kani::any::<u16>() as u32;
+        let b: u32 = kani::any::<u16>() as u32;
+        let r = <CountMissingReferenceIdProcessor as ReferenceProcessor<u32, u32, u32>>::reduce(&[a, b]);
+        assert!(r == Some(a + b));
+    }
+}
